@@ -32,13 +32,21 @@ AllWellFormed(w, sets, kind) ==
   \A j \in DOMAIN sets : Len(sets[j]) > 0 /\ \A i \in DOMAIN sets[j] : WellFormed(w, sets[j][i], kind)
 \* no cluster is listed twice, neither inside a set nor in two sets
 Disjoint(d, sets, kind) == TotalLen(sets) = Cardinality(AllFormsOf(d, sets, kind))
-\* every image (and reversal, for transitions) of every member is a member of the same set
-Closed(w, G, sets, kind) ==
-  \A j \in DOMAIN sets : LET F == FormsOfSet(w.dim, sets[j], kind) IN
-      \A i \in DOMAIN sets[j] : OrbitRev(w, G, sets[j][i], kind) \subseteq F
-\* every set is exactly one orbit
-SingleOrbits(w, G, sets, kind) ==
-  \A j \in DOMAIN sets : FormsOfSet(w.dim, sets[j], kind) = OrbitRev(w, G, sets[j][1], kind)
+\* Per set j of a family: <<single, closed>>.
+\*   single: the set is exactly the orbit of its first member under the group (and reversal, for transitions);
+\*   closed: every image (and reversal) of every member is a member of the same set.
+\* The definitional group IS a group (checked for every case, GroupLemma) and reversal commutes with it, so an
+\* orbit is closed: `closed` is only evaluated member by member when the set is not a single orbit.
+\* (a variable bound over a singleton set is evaluated exactly once)
+FullyClosed(w, GT, set, kind) ==
+  \A F \in {FormsOfSet(w.dim, set, kind)} : \A i \in DOMAIN set : OrbitRev(w, GT, set[i], kind) \subseteq F
+Family(w, GT, sets, kind) ==
+  [j \in DOMAIN sets |->
+     CHOOSE r \in {<<s, s \/ FullyClosed(w, GT, sets[j], kind)>> :
+                      s \in {FormsOfSet(w.dim, sets[j], kind) = OrbitRev(w, GT, sets[j][1], kind)}} : TRUE]
+AllSingle(fam) == \A j \in DOMAIN fam : fam[j][1]
+AllClosed(fam) == \A j \in DOMAIN fam : fam[j][2]
+GroupLemma(w, G) == IsGroup(w, G)
 
 SeqWithout(q, P) ==
   LET idx == SetToSortSeq({i \in 1..Len(q) : i \notin P}, LAMBDA a, b : a < b) IN [n \in 1..Len(idx) |-> q[idx[n]]]
@@ -72,15 +80,20 @@ JumpsClosed(w, G, chem, J) ==
                          t == ActPos(w, g[1], g[2], <<chem, jm[2]>>, jm[3])
                      IN <<s[1][2], t[1][2], VSub(t[2], s[2])>> \in J
 
-EnumClauses(c, G) ==
+DefinedForms(c) ==
+  LET excl == {c.excl[i] : i \in DOMAIN c.excl}
+  IN {Form(c.w.dim, SetToSeq(S), "plain") : S \in AllRaw(c.w, c.cut2, excl, c.B, c.K)}
+
+\* GT = GroupTable(w, G), DefForms = DefinedForms(c), Impl = the implementation's plain forms, J = the jumps:
+\* passed in as already evaluated values
+EnumClauses(c, GT, DefForms, Impl, J) ==
   LET w == c.w
       d == w.dim
-      excl == {c.excl[i] : i \in DOMAIN c.excl}
-      J == {c.jumps[i] : i \in DOMAIN c.jumps}
-      raw == AllRaw(w, c.cut2, excl, c.B, c.K)
-      DefForms == {Form(d, SetToSeq(S), "plain") : S \in raw}
-      Impl == AllFormsOf(d, c.clusters, "plain")
-      wf == /\ AllWellFormed(w, c.clusters, "plain") /\ AllWellFormed(w, c.vac, "vac")
+      fp == Family(w, GT, c.clusters, "plain")
+      fv == Family(w, GT, c.vac, "vac")
+      ft == Family(w, GT, c.ts, "ts")
+      fvt == Family(w, GT, c.vts, "vts")
+      wf ==/\ AllWellFormed(w, c.clusters, "plain") /\ AllWellFormed(w, c.vac, "vac")
             /\ AllWellFormed(w, c.ts, "ts") /\ AllWellFormed(w, c.vts, "vts")
   IN IF ~wf THEN     \* malformed output (unknown atom, repeated site, empty set): nothing else can be evaluated
      <<
@@ -93,18 +106,17 @@ EnumClauses(c, G) ==
    <<"no_cluster_beyond_cutoff_order_or_of_excluded_species", Impl \subseteq DefForms>>,
    <<"every_cluster_within_cutoff_is_generated", DefForms \subseteq Impl>>,
    <<"cluster_sets_are_disjoint", Disjoint(d, c.clusters, "plain")>>,
-   <<"cluster_sets_are_symmetry_orbits",
-        Closed(w, G, c.clusters, "plain") /\ SingleOrbits(w, G, c.clusters, "plain")>>,
+   <<"cluster_sets_are_symmetry_orbits", AllSingle(fp)>>,
    <<"vacancy_clusters_well_formed", AllWellFormed(w, c.vac, "vac")>>,
-   <<"vacancy_sets_closed_under_symmetry", Closed(w, G, c.vac, "vac")>>,
-   <<"vacancy_sets_are_disjoint_orbits", Disjoint(d, c.vac, "vac") /\ SingleOrbits(w, G, c.vac, "vac")>>,
+   <<"vacancy_sets_closed_under_symmetry", AllClosed(fv)>>,
+   <<"vacancy_sets_are_disjoint_orbits", Disjoint(d, c.vac, "vac") /\ AllSingle(fv)>>,
    <<"vacancy_clusters_are_the_expansion_with_one_site_vacated",
         AllFormsOf(d, c.vac, "vac") = ExpectedVac(d, c.clusters, c.chem)>>,
    <<"ts_clusters_well_formed", AllWellFormed(w, c.ts, "ts") /\ AllWellFormed(w, c.vts, "vts")>>,
-   <<"ts_sets_closed_under_symmetry_and_reversal", Closed(w, G, c.ts, "ts") /\ Closed(w, G, c.vts, "vts")>>,
+   <<"ts_sets_closed_under_symmetry_and_reversal", AllClosed(ft) /\ AllClosed(fvt)>>,
    <<"ts_sets_are_disjoint_orbits",
-        /\ Disjoint(d, c.ts, "ts") /\ SingleOrbits(w, G, c.ts, "ts")
-        /\ Disjoint(d, c.vts, "vts") /\ SingleOrbits(w, G, c.vts, "vts")>>,
+        /\ Disjoint(d, c.ts, "ts") /\ AllSingle(ft)
+        /\ Disjoint(d, c.vts, "vts") /\ AllSingle(fvt)>>,
    <<"ts_clusters_are_the_jumps_inside_clusters",
         /\ AllFormsOf(d, c.ts, "ts") = ExpectedTS(d, c.clusters, c.chem, J)
         /\ AllFormsOf(d, c.vts, "vts") = ExpectedVTS(d, c.vac, c.chem, J)>>
@@ -130,12 +142,19 @@ EqClauses(c) ==
       same(a, b) == /\ c.items[a].kind = c.items[b].kind
                     /\ Len(c.items[a].sites) = Len(c.items[b].sites)
                     /\ F[a] = F[b]
-  IN <<
-   <<"translated_or_reordered_clusters_are_equal", \A a \in 1..n, b \in 1..n : same(a, b) => c.eq[a][b] = 1>>,
-   <<"equal_clusters_have_the_same_geometry", \A a \in 1..n, b \in 1..n : c.eq[a][b] = 1 => same(a, b)>>,
-   <<"equal_clusters_have_equal_hash", \A a \in 1..n, b \in 1..n : c.eq[a][b] = 1 => c.hid[a] = c.hid[b]>>,
-   <<"inequality_is_the_negation_of_equality", \A a \in 1..n, b \in 1..n : c.ne[a][b] = 1 - c.eq[a][b]>>
-  >>
+      KindSeq == <<"plain", "vac", "ts", "vts">>
+      Of(kd) == {a \in 1..n : c.items[a].kind = kd}
+      \* the four laws, reported per kind of the left-hand cluster: entries 4 (i - 1) + 1 .. 4 i belong to KindSeq[i]
+      Law(kd, m) ==
+        CASE m = 1 -> <<"translated_or_reordered_clusters_are_equal@" \o kd,
+                        \A a \in Of(kd), b \in 1..n : same(a, b) => c.eq[a][b] = 1>>
+          [] m = 2 -> <<"equal_clusters_have_the_same_geometry@" \o kd,
+                        \A a \in Of(kd), b \in 1..n : c.eq[a][b] = 1 => same(a, b)>>
+          [] m = 3 -> <<"equal_clusters_have_equal_hash@" \o kd,
+                        \A a \in Of(kd), b \in 1..n : c.eq[a][b] = 1 => c.hid[a] = c.hid[b]>>
+          [] m = 4 -> <<"inequality_is_the_negation_of_equality@" \o kd,
+                        \A a \in Of(kd), b \in 1..n : c.ne[a][b] = 1 - c.eq[a][b]>>
+  IN [j \in 1..16 |-> Law(KindSeq[((j - 1) \div 4) + 1], ((j - 1) % 4) + 1)]
 EqInfo(c) ==
   LET d == c.w.dim
       n == Len(c.items)
@@ -150,15 +169,16 @@ Next == /\ k < Len(Cases)
         /\ k' = k + 1
         /\ LET c == Cases[k'] IN
            IF c.type = "enum"
-           THEN LET G == OpsRT(c.w, 2)
-                    cl == EnumClauses(c, G)
-                    inf == EnumInfo(c, G)
-                IN /\ BoxOK(c.w, c.cut2, c.B) \/ PrintT(<<"FAIL", k', "MACHINERY_box">>)
+           THEN \A G \in {OpsRT(c.w, 2)} : \A GT \in {GroupTable(c.w, G)} :
+                \A DefForms \in {DefinedForms(c)} : \A Impl \in {AllFormsOf(c.w.dim, c.clusters, "plain")} :
+                \A J \in {{c.jumps[i] : i \in DOMAIN c.jumps}} :
+                \A cl \in {EnumClauses(c, GT, DefForms, Impl, J)} : \A inf \in {EnumInfo(c, G)} :
+                   /\ BoxOK(c.w, c.cut2, c.B) \/ PrintT(<<"FAIL", k', "MACHINERY_box">>)
+                   /\ GroupLemma(c.w, G) \/ PrintT(<<"FAIL", k', "MACHINERY_group">>)
                    /\ \A j \in DOMAIN cl : cl[j][2] \/ PrintT(<<"FAIL", k', cl[j][1]>>)
                    /\ \A j \in DOMAIN inf : PrintT(<<"INFO", k', inf[j][1], inf[j][2]>>)
-           ELSE LET cl == EqClauses(c)
-                    inf == EqInfo(c)
-                IN /\ \A j \in DOMAIN cl : cl[j][2] \/ PrintT(<<"FAIL", k', cl[j][1]>>)
+           ELSE \A cl \in {EqClauses(c)} : \A inf \in {EqInfo(c)} :
+                   /\ \A j \in DOMAIN cl : cl[j][2] \/ PrintT(<<"FAIL", k', cl[j][1]>>)
                    /\ \A j \in DOMAIN inf : PrintT(<<"INFO", k', inf[j][1], inf[j][2]>>)
         /\ (k' = Len(Cases) => PrintT(<<"DONE", k'>>))
 =============================================================================
